@@ -829,7 +829,7 @@ impl SimState {
         };
         self.out.events.push(Ev::DbWrite { kind, len: bytes.len(), cut });
         self.out.db_writes.push(DbW { kind, bytes: bytes.to_vec(), cut });
-        let complete = cut.is_none();
+        let complete = cut.is_none() || cut == Some(bytes.len());
         match kind {
             DbWriteKind::Signature => {}
             DbWriteKind::Path => {
@@ -885,7 +885,14 @@ impl SimState {
                         }
                     }
                 }
-                _ => viol(&mut self.out, "C08", "build-record-malformed", format!("{} bytes", bytes.len())),
+                _ => {
+                    let big = self.expected_rec.values().any(|r| r.as_ref().map(|r| r.deps.len() >= 65536).unwrap_or(false));
+                    if big {
+                        viol(&mut self.out, "C08", "dep-count-overflow", format!("a build record with >= 65536 discovered deps is written with a wrapped 16-bit count ({} bytes)", bytes.len()));
+                    } else {
+                        viol(&mut self.out, "C08", "build-record-malformed", format!("{} bytes", bytes.len()));
+                    }
+                }
             },
         }
         cut
